@@ -18,13 +18,16 @@ from harness.core import Result
 COMPONENTS = ["assign"]
 TRUSTED = [
     "model of Python str ordering as lexicographic order on code points, of sorted() as insertion sort, of dict/defaultdict as "
-    "insertion-ordered association lists, of itertools.cycle as a rotating list (Afkak/Assign.lean); each is exercised by the correspondence",
-    "harness/props/c15.py: generators, the canonical rendering of assignments, and the calls into the real _ConsumerProtocol",
+    "insertion-ordered association lists, of itertools.cycle as a rotating list, of struct as big-endian two's complement, of Python slices, and of "
+    "CPython's strict UTF-8 codec (Afkak/Assign.lean); each is exercised by the correspondence on every run",
+    "harness/props/c15.py: generators, the canonical rendering of assignments, the calls into the real _ConsumerProtocol / KafkaCodec, and the replay of "
+    "the leader's two-call glue of Coordinator._join_and_sync (its AST shape is pinned by harness/consts/assign.py; the coroutine itself belongs to C16/C17)",
 ]
 ASSUMPTIONS = [
     "member ids are distinct (the group coordinator assigns them) and a topic's partition list has no repeated id: hypotheses of the C15 theorems and "
     "the condition under which the monitors are evaluated (scenarios violating them are still compared model-vs-code)",
-    "C15_member_decodes_own: partition ids in int32, topic names ASCII and at most 32767 bytes, fewer than 2^31 topics/partitions per member",
+    "C15_codec_roundtrip / C15_in_range_total: partition ids in int32, topic names ASCII and at most 32767 characters, fewer than 2^31 topics/partitions",
+    "C15_leader_glue: client._load_topic_partitions answers with an entry for every topic it was asked for (its documented contract)",
 ]
 
 CORPUS = os.path.join(core.VERIF, "corpus", "assign")
@@ -205,14 +208,34 @@ def impl_round_robin(proto, members, tp):
     from afkak.kafkacodec import KafkaCodec
 
     md = {}
-    for m in impl_members(proto, members):
-        md[m.member_id] = KafkaCodec.decode_join_group_protocol_metadata(m.member_metadata)
+    try:
+        for m in impl_members(proto, members):
+            md[m.member_id] = KafkaCodec.decode_join_group_protocol_metadata(m.member_metadata)
+    except Exception as e:  # noqa: BLE001 - a member's own metadata does not decode: an observation, not a crash
+        return exc_line(e), None
     try:
         a = proto._round_robin_assignment(md, dict((t, list(ps)) for t, ps in tp))
     except Exception as e:  # noqa: BLE001
         return exc_line(e), None
     plain = [(m, [(t, list(ps)) for t, ps in inner.items()]) for m, inner in a.items()]
     return "asg " + tobs(plain), dict((m, inner) for m, inner in plain)
+
+
+def impl_leader(proto, members, tp):
+    """The leader's glue of Coordinator._join_and_sync (its shape is pinned by harness/consts/assign.py): first
+    generate_assignments(members, topic_partitions={}); on _NeedTopicPartitions the harness plays
+    client._load_topic_partitions(*e.topics) and answers with the scenario's map; then the second call."""
+    from afkak._group import _NeedTopicPartitions
+
+    ms = impl_members(proto, members)
+    try:
+        try:
+            out = proto.generate_assignments(ms, topic_partitions={})
+        except _NeedTopicPartitions:
+            out = proto.generate_assignments(ms, topic_partitions=dict((t, list(ps)) for t, ps in tp))
+    except Exception as e:  # noqa: BLE001
+        return exc_line(e)
+    return "enc " + ("-" if not out else ";".join(tstr(m.member_id) + ":" + hx(bytes(m.member_metadata)) for m in out))
 
 
 def impl_decode(proto, b):
@@ -268,6 +291,12 @@ def run_assign(proto, sc, tags, batch, res):
     rr_line, assigned = impl_round_robin(proto, members, tp)
     batch.add("rr %s %s" % (mtok, ttok), sort_outer(rr_line), ("corr", sc, "rr"))
     gen_line, encs = impl_generate(proto, members, tp)
+    wtok = "-" if not members else ";".join(tstr(m.member_id) + ":" + hx(bytes(m.member_metadata)) for m in impl_members(proto, members))
+    gen_expect = gen_line if encs is None else "enc " + ("-" if not encs else ";".join(tstr(i) + ":" + hx(b) for i, b in encs))
+    batch.add("genb %s %s" % (wtok, ttok), gen_expect, ("corr", sc, "genb"))
+    lead = impl_leader(proto, members, tp)
+    batch.add("leader %s %s" % (wtok, ttok), lead, ("corr", sc, "leader"))
+    res.count("leader_outcome=" + lead.split(" ")[0] + ("" if lead.startswith(("enc", "need")) else " " + lead.split(" ")[1]))
     res.count("outcome=" + gen_line.split(" ")[0] + ("" if gen_line.startswith(("enc", "need")) else " " + gen_line.split(" ")[1]))
     if encs is None:
         batch.add("gen %s %s" % (mtok, ttok), gen_line, ("corr", sc, "gen"))
@@ -313,11 +342,13 @@ def run_assign(proto, sc, tags, batch, res):
     res.sample({"scenario": sc, "impl_decoded": [[i, a] for i, a in obs], "loads": loads}, limit=4)
 
 
-def settle(batch, got, res):
+def settle(batch, got, res, trace=None):
     """Compare the model's answers with the implementation's; classify monitor answers."""
     for line, exp, meta, g in zip(batch.lines, batch.expect, batch.meta, got):
         kind, sc, what = meta
         g1 = g[0] if g else ""
+        if trace is not None:
+            trace.append((line, exp, g1, kind))
         if kind == "corr":
             if what == "rr":
                 g1 = sort_outer(g1)
@@ -402,6 +433,109 @@ def gen_codec(rng):
     return {"kind": "decode", "hex": bytes(b).hex()}
 
 
+UTF8_EDGE = [0x00, 0x41, 0x7F, 0x80, 0x8F, 0x90, 0x9F, 0xA0, 0xBF, 0xC0, 0xC1, 0xC2, 0xDF, 0xE0, 0xE1, 0xEC, 0xED, 0xEE, 0xEF, 0xF0, 0xF1, 0xF3, 0xF4, 0xF5, 0xFF]
+CODEPOINTS = [0x0, 0x41, 0x7F, 0x80, 0x7FF, 0x800, 0xFFF, 0x1000, 0xD7FF, 0xD800, 0xDFFF, 0xE000, 0xFFFF, 0x10000, 0x3FFFF, 0x40000, 0xFFFFF, 0x100000, 0x10FFFF, 0xE9, 0x1F600]
+
+
+def gen_text_cps(rng):
+    return [rng.choice(CODEPOINTS) if rng.random() < 0.6 else rng.randrange(0, 0x110000) for _ in range(rng.randrange(0, 6))]
+
+
+def gen_meta(rng):
+    """Member-metadata codec and UTF-8 cases."""
+    from afkak.kafkacodec import KafkaCodec
+
+    r = rng.random()
+    if r < 0.2:
+        return {"kind": "utf8-enc", "cps": gen_text_cps(rng)}
+    if r < 0.5:
+        if rng.random() < 0.5:
+            b = bytes(rng.choice(UTF8_EDGE) for _ in range(rng.randrange(0, 7)))
+        else:
+            good = "".join(chr(c) for c in gen_text_cps(rng) if not 0xD800 <= c <= 0xDFFF).encode("utf-8")
+            b = bytearray(good)
+            for _ in range(rng.randrange(0, 3)):
+                if b:
+                    k = rng.randrange(len(b))
+                    if rng.random() < 0.5:
+                        b[k] = rng.choice(UTF8_EDGE)
+                    else:
+                        del b[k]
+            b = bytes(b)
+        return {"kind": "utf8-dec", "hex": b.hex()}
+    if r < 0.7:
+        n = rng.choice([0, 1, 2, 3])
+        topics = [[ord(ch) for ch in rng.choice(TOPICS)] if rng.random() < 0.6 else gen_text_cps(rng) for _ in range(n)]
+        if rng.random() < 0.05:
+            topics.append([0x78] * rng.choice([32767, 32768]))
+        if rng.random() < 0.05:
+            topics.append([0xE9] * 16384)  # 32768 bytes of UTF-8 from 16384 characters
+        return {"kind": "meta-enc", "version": rng.choice([0, 0, 0, 1, -1, 32767, 32768, -32769]), "topics": topics}
+    names = rng.sample(TOPICS + ["é", "\U0001F600x", "", "\uffff"], rng.choice([0, 1, 2, 3]))
+    b = bytearray(KafkaCodec.encode_join_group_protocol_metadata(rng.choice([0, 0, 1, 3]), names, b""))
+    mode = rng.randrange(9)
+    if mode == 1:
+        b = b[: rng.randrange(0, len(b) + 1)]
+    elif mode == 2:
+        c = int.from_bytes(b[2:6], "big", signed=True) + rng.choice([-1, 1, 2, -7, 2**31 - 1 - len(names)])
+        b[2:6] = (c & 0xFFFFFFFF).to_bytes(4, "big")
+    elif mode == 3 and names:
+        b[6:8] = rng.choice([b"\xff\xff", b"\xff\xfe", b"\x80\x00", b"\x7f\xff", b"\x00\x00", b"\x00\x01"])
+    elif mode == 4 and names and b[6:8] != b"\x00\x00":
+        b[8] = rng.choice(UTF8_EDGE)
+    elif mode == 5:
+        b[-4:] = rng.choice([b"\xff\xff\xff\xff", b"\xff\xff\xff\xfe", b"\x00\x00\x00\x01", b"\x00\x00\x00\x00"])
+    elif mode == 6:
+        b += bytes(rng.randrange(256) for _ in range(rng.randrange(1, 5)))
+    elif mode == 7:
+        for _ in range(rng.randrange(1, 4)):
+            if b:
+                b[rng.randrange(len(b))] = rng.choice(UTF8_EDGE + [rng.randrange(256)])
+    elif mode == 8:
+        b = b[:-4] + b"\x00\x00\x00\x03abc"  # user data present
+    return {"kind": "meta-dec", "hex": bytes(b).hex()}
+
+
+def run_meta(sc, batch, res):
+    from afkak.kafkacodec import KafkaCodec
+
+    res.evaluations += 1
+    k = sc["kind"]
+    if k == "utf8-enc":
+        try:
+            out = "bytes " + hx("".join(chr(c) for c in sc["cps"]).encode("utf-8"))
+        except Exception as e:  # noqa: BLE001
+            out = exc_line(e)
+        batch.add("utf8-enc " + tstr("".join(chr(c) for c in sc["cps"])), out, ("corr", sc, k))
+    elif k == "utf8-dec":
+        b = bytes.fromhex(sc["hex"])
+        try:
+            out = "str " + tstr(b.decode("utf-8"))
+        except Exception as e:  # noqa: BLE001
+            out = exc_line(e)
+        batch.add("utf8-dec " + hx(b), out, ("corr", sc, k))
+    elif k == "meta-enc":
+        topics = ["".join(chr(c) for c in t) for t in sc["topics"]]
+        try:
+            out = "bytes " + hx(KafkaCodec.encode_join_group_protocol_metadata(sc["version"], topics, b""))
+        except Exception as e:  # noqa: BLE001
+            out = exc_line(e)
+        batch.add("meta-enc %d %s" % (sc["version"], ",".join(tstr(t) for t in topics) if topics else "-"), out, ("corr", sc, k))
+        if out.startswith("bytes") and topics:
+            res.nontrivial([k, sc["version"], sc["topics"]])
+    else:
+        b = bytes.fromhex(sc["hex"])
+        try:
+            m = KafkaCodec.decode_join_group_protocol_metadata(b)
+            out = "meta %d %s %s" % (m.version, ",".join(tstr(t) for t in m.subscriptions) if m.subscriptions else "-", "null" if m.user_data is None else hx(bytes(m.user_data)))
+            if m.subscriptions:
+                res.nontrivial([k, sc["hex"]])
+        except Exception as e:  # noqa: BLE001
+            out = exc_line(e)
+        batch.add("meta-dec " + hx(b), out, ("corr", sc, k))
+    res.count("meta_%s=%s" % (k, out.split(" ")[0] + ("" if not out.startswith("error") else " " + out.split(" ")[1])))
+
+
 def run_codec(proto, sc, batch, res):
     from afkak.kafkacodec import KafkaCodec
 
@@ -425,7 +559,7 @@ def run_codec(proto, sc, batch, res):
 
 
 # ---------------------------------------------------------------- running batches
-def run_scenarios(scs, res, model):
+def run_scenarios(scs, res, model, trace=None):
     """scs: list of (scenario, tags).  Runs the implementation, then the model once, then settles."""
     from afkak._group import _ConsumerProtocol
 
@@ -434,10 +568,12 @@ def run_scenarios(scs, res, model):
     for sc, tags in scs:
         if sc["kind"] == "assign":
             run_assign(proto, sc, tags, batch, res)
-        else:
+        elif sc["kind"] in ("encode", "decode"):
             run_codec(proto, sc, batch, res)
+        else:
+            run_meta(sc, batch, res)
     if batch.lines:
-        settle(batch, model("assign", batch.lines), res)
+        settle(batch, model("assign", batch.lines), res, trace)
 
 
 def disagrees(sc):
@@ -495,7 +631,7 @@ def corpus_scenarios():
 
 def generate(rng, n_assign, n_codec):
     scs = [gen_assign(rng) for _ in range(n_assign)]
-    scs += [(gen_codec(rng), []) for _ in range(n_codec)]
+    scs += [(gen_codec(rng) if k % 2 == 0 else gen_meta(rng), []) for k in range(n_codec)]
     return scs
 
 
@@ -586,7 +722,7 @@ def run(ctx, res):
     for d in res.disagreements[:3]:
         if isinstance(d.get("scenario"), dict) and d["scenario"].get("kind") == "assign":
             d["shrunk"] = shrink(d["scenario"])
-    res.extra["branch_histogram"] = {k: v for k, v in res.hist.items() if k.startswith(("outcome=", "codec_", "skip_", "cycle_", "monitor_"))}
+    res.extra["branch_histogram"] = {k: v for k, v in res.hist.items() if k.startswith(("outcome=", "leader_", "codec_", "meta_", "skip_", "cycle_", "monitor_"))}
 
 
 def search(ctx, res, broken):
@@ -644,23 +780,19 @@ def replay(ctx, data):
         sc.setdefault("relist", list(reversed(range(len(sc["members"])))))
     print("replay scenario:", json.dumps(sc))
     r = Result()
-
-    def model(comp, lines):
-        got = ctx.model(comp, lines)
-        for l, g in zip(lines, got):
-            print("  request:", l[:600])
-            print("    model:", " / ".join(g)[:600])
-        return got
-
-    batch_print = []
-    run_scenarios([(sc, [])], r, model)
-    for s in r.samples:
-        print("  implementation:", json.dumps(s, default=str)[:1500])
+    trace = []
+    run_scenarios([(sc, [])], r, ctx.model, trace)
+    for line, exp, got, kind in trace:
+        print("  request:", line[:600])
+        if kind == "corr":
+            print("    implementation:", str(exp)[:600])
+            print("    model:         ", got[:600], "" if (got == exp or (line.startswith("rr ") and sort_outer(got) == exp)) else "   <-- DIFFERENT")
+        else:
+            print("    monitor on the implementation's output:", got[:300])
     for d in r.disagreements:
         print("  DISAGREEMENT impl:", d["impl"][:600], "| model:", d["model"][:600])
     for f in r.monitor_failures:
         print("  MONITOR FAILS:", f["what"], f["tags"])
-    del batch_print
     if r.monitor_failures:
         print("VIOLATION property=C15 replay=(this file)")
         return 1
